@@ -56,3 +56,21 @@ int GUEST_PREFIX(g_lib_id_indirect)(void)
 {
   return GUEST_PREFIX(g_lib_id)();
 }
+
+/* callbacks whose result travels in other registers / through other trampolines than long */
+double GUEST_PREFIX(g_call_d)(double (*cb)(double, float), double a, float b)
+{
+  return cb(a, b) + 0.5;
+}
+long long GUEST_PREFIX(g_call_ll)(long long (*cb)(long long, unsigned char), long long a, unsigned char b)
+{
+  return cb(a, b) - 1;
+}
+float GUEST_PREFIX(g_call_f)(float (*cb)(float), float a)
+{
+  return cb(a);
+}
+unsigned long GUEST_PREFIX(g_call_ul)(unsigned long (*cb)(unsigned long, short), unsigned long a, short b)
+{
+  return cb(a, b) ^ 1UL;
+}
